@@ -5,84 +5,74 @@
 (* msg.Box.  The model takes the same step (MsgBoxLS!Step); the yield      *)
 (* point reached and the projected state (snapshot through the verif       *)
 (* accessor) are compared (-> drift); the C14 monitors are evaluated on    *)
-(* the OBSERVED hand-off log at the end of the run.  A violation that the  *)
-(* model of the pinned code predicts exactly (same hand-off log) is        *)
-(* reported with the named deviations that explain it (KNOWN); any other   *)
-(* violation is reported as VIOL.                                          *)
+(* the OBSERVED hand-off log, buffers and locks at the end of the run.     *)
 (***************************************************************************)
 EXTENDS MsgBoxLS, Json
 
 CONSTANTS TraceFile
 Trace == ndJsonDeserialize(TraceFile)
 
-VARIABLES l, tid, drift, ohanded, ostarted, osent, bad
+VARIABLES l, tid, drift, ohanded, osent, oleft
 
-tvars == <<vars, l, tid, drift, ohanded, ostarted, osent, bad>>
+tvars == <<vars, l, tid, drift, ohanded, osent, oleft>>
 
 Line == Trace[l]
 Rng(s) == {s[i] : i \in DOMAIN s}
 
-TInit == Init /\ l = 1 /\ tid = -1 /\ drift = "" /\ ohanded = <<>> /\ ostarted = {} /\ osent = {} /\ bad = FALSE
+TInit == Init /\ l = 1 /\ tid = -1 /\ drift = "" /\ ohanded = <<>> /\ osent = {} /\ oleft = FALSE
 
 Reset ==
   /\ Line.e = "reset"
-  /\ started' = {} /\ pmap' = [t \in Topics |-> 0] /\ lists' = [i \in 1..MaxLists |-> <<>>] /\ nl' = 0
-  /\ inflight' = {} /\ handed' = <<>> /\ fsent' = <<>> /\ th' = [t \in Threads |-> InitThread(t)]
-  /\ devStale' = FALSE /\ devOvertake' = FALSE /\ devSweep' = FALSE /\ ev' = ""
-  /\ tid' = Line.t /\ drift' = "" /\ ohanded' = <<>> /\ ostarted' = {} /\ osent' = {} /\ bad' = FALSE
+  /\ started' = {} /\ pend' = [t \in Topics |-> Absent] /\ hand' = [t \in Topics |-> Absent]
+  /\ inflight' = {} /\ hlock' = [t \in Topics |-> ""] /\ handed' = <<>> /\ fsent' = <<>> /\ th' = [t \in Threads |-> InitThread(t)]
+  /\ ev' = ""
+  /\ tid' = Line.t /\ drift' = "" /\ ohanded' = <<>> /\ osent' = {} /\ oleft' = FALSE
 
 Ids(s) == [i \in DOMAIN s |-> s[i].id]
 
 \* projection of the model state in the shape of the logged snapshot
-PendOK(snap) == \A i \in DOMAIN snap :
-                   LET tp == snap[i].t IN
-                   /\ snap[i].has = (pmap'[tp] # 0)
-                   /\ (pmap'[tp] # 0 => snap[i].ids = Ids(lists'[pmap'[tp]]))
+BufOK(snap, b) == \A i \in DOMAIN snap :
+                     LET tp == snap[i].t IN
+                     /\ snap[i].has = b[tp].has
+                     /\ (b[tp].has => snap[i].ids = Ids(b[tp].msgs))
+
+PCAfter(t) == IF th'[t].stk = <<>> THEN "done" ELSE th'[t].stk[Len(th'[t].stk)].pc
 
 StepEv ==
   /\ Line.e = "step"
   /\ LET t == Line.th IN
-     IF t \notin Threads \/ th[t].pc = "done" \/ nl >= MaxLists
+     IF t \notin Threads \/ th[t].stk = <<>> \/ ~ENABLED Step(t)
        THEN /\ UNCHANGED vars
-            /\ drift' = IF drift = "" THEN "step of a thread the model considers finished @line " \o ToString(l) ELSE drift
+            /\ drift' = IF drift = "" THEN "step of a thread the model considers finished or blocked @line " \o ToString(l) ELSE drift
        ELSE /\ Step(t)
             /\ drift' = IF drift # "" THEN drift
-                        ELSE IF th[t].pc # Line.pc THEN "yield point differs @line " \o ToString(l)
-                        ELSE IF th'[t].pc # Line.next THEN "next yield point differs @line " \o ToString(l)
-                        ELSE IF ~PendOK(Line.pend) THEN "buffered messages differ @line " \o ToString(l)
+                        ELSE IF PC(t) # Line.pc THEN "yield point differs @line " \o ToString(l)
+                        ELSE IF PCAfter(t) # Line.next THEN "next yield point differs @line " \o ToString(l)
+                        ELSE IF ~BufOK(Line.pend, pend') THEN "buffered messages differ @line " \o ToString(l)
+                        ELSE IF ~BufOK(Line.hand, hand') THEN "hand-over queue differs @line " \o ToString(l)
                         ELSE IF Rng(Line.started) # started' THEN "started topics differ @line " \o ToString(l)
                         ELSE IF {<<x[1], x[2]>> : x \in Rng(Line.infl)} # inflight' THEN "in-flight bookkeeping differs @line " \o ToString(l)
                         ELSE IF Line.handed # handed' THEN "hand-off log differs @line " \o ToString(l)
                         ELSE IF Line.fsent # fsent' THEN "forwarded sends differ @line " \o ToString(l)
                         ELSE ""
-  /\ ohanded' = Line.handed /\ ostarted' = Rng(Line.started) /\ osent' = Rng(Line.fsent)
-  /\ UNCHANGED <<tid, bad>>
+  /\ ohanded' = Line.handed /\ osent' = Rng(Line.fsent)
+  \* observed: a message is still buffered for a topic on which the party has sent, or a hand-over queue still exists
+  /\ oleft' = \E i \in DOMAIN Line.pend : (Line.pend[i].has /\ Line.pend[i].t \in Rng(Line.fsent)) \/ Line.hand[i].has
+  /\ UNCHANGED tid
 
-SkipEv == Line.e = "skip" /\ UNCHANGED <<vars, tid, drift, ohanded, ostarted, osent, bad>>
-
-\* deviations of the pinned code, as visible in the model state at the end of the run
-Buffered == UNION {Rng(lists[pmap[tp]]) : tp \in {x \in Topics : pmap[x] # 0}}
-Stranded == \E m \in Buffered : m.topic \in SentOn
-Orphaned == \E i \in 1..nl : \E m \in Rng(lists[i]) :
-               /\ \A tp \in Topics : pmap[tp] # i
-               /\ Count(handed, m.id) = 0
+SkipEv == Line.e = "skip" /\ UNCHANGED <<vars, tid, drift, ohanded, osent, oleft>>
 
 EndEv ==
   /\ Line.e = "end"
   /\ LET viols == {m[1] : m \in {mm \in {<<"ExactlyOnce", ExactlyOnceOn(ohanded, osent)>>,
                                            <<"PerSenderOrder", PerSenderOrderOn(ohanded)>>,
                                            <<"NoDup", NoDupOn(ohanded)>>,
+                                           <<"NothingLeftBehind", Line.hung \/ ~oleft>>,
                                            <<"NoPanic", Line.panic = "">>,
                                            <<"NoDeadlock", ~Line.hung>>} : ~mm[2]}}
-         explained == Terminal /\ ohanded = handed /\ ostarted = started /\ osent = SentOn /\ Line.panic = "" /\ ~Line.hung
-         devs == (IF Stranded THEN {"stranded"} ELSE {}) \cup (IF Orphaned THEN {"orphan"} ELSE {})
-                 \cup (IF devOvertake THEN {"overtake"} ELSE {})
-                 \cup (IF devSweep THEN {"fresh-buffer-swept"} ELSE {})
-                 \cup (IF devStale /\ ~Stranded /\ ~Orphaned THEN {"stale-store-drained-later"} ELSE {})
-     IN /\ \A v \in viols : PrintT(<<IF explained THEN "KNOWN" ELSE "VIOL",
-                                     ToJson([t |-> tid, l |-> l, mon |-> v, devs |-> devs])>>)
-        /\ PrintT(<<"END", ToJson([t |-> tid, drift |-> drift])>>)
-  /\ UNCHANGED <<vars, tid, drift, ohanded, ostarted, osent, bad>>
+     IN /\ \A v \in viols : PrintT(<<"VIOL", ToJson([t |-> tid, l |-> l, mon |-> v])>>)
+        /\ PrintT(<<"END", ToJson([t |-> tid, drift |-> IF drift = "" /\ ~Line.hung /\ ~Terminal THEN "the model has not terminated at the end of the run" ELSE drift])>>)
+  /\ UNCHANGED <<vars, tid, drift, ohanded, osent, oleft>>
 
 TNext == /\ l <= Len(Trace) /\ l' = l + 1
          /\ (Reset \/ StepEv \/ SkipEv \/ EndEv)
